@@ -51,6 +51,26 @@ def build(spec) -> bytes:
     if kind == "unknown":    # header and payload fields no schema knows
         return U.make_segment(9, [U.filler(spec[1])], extra_header=b"\xa0\x06\x2a\xaa\x06\x03abc") + \
             U.make_segment(10, [U.filler(5), U.filler(0)], extra_header=b"\xa5\x06\x01\x02\x03\x04")
+    if kind == "random":     # incompressible payloads: the compressed form of a 64 KiB piece is LONGER than 64 KiB
+        import random
+        r = random.Random(spec[2])
+        body = r.randbytes(spec[1])
+        return U.make_segment(11, [U.filler(3)]) + U.make_segment(12, [b"\x12" + U.varint(len(body)) + body, U.filler(0)])
+    if kind == "bighdr":     # ArchiveInfo headers whose length prefix is a 3- or 4-byte varint (>= 16384 / >= 2097152 bytes)
+        n = spec[1]
+        big = b"\xa2\x06" + U.varint(n) + bytes((i * 11 + 5) & 0xFF for i in range(n))     # field 100, length-delimited, unknown
+        return (U.make_segment(31, [U.filler(6)]) + U.make_segment(32, [U.filler(3), U.filler(0)], extra_header=big)
+                + U.make_segment(33, [U.filler(2)] * 2500) + U.make_segment(34, [U.filler(8)]))
+    if kind == "ident0":     # boundary of the identifier range: identifier 0, and the optional field left out altogether
+        from numbers_parser.generated.TSPArchiveMessages_pb2 import ArchiveInfo
+        h = ArchiveInfo()
+        mi = h.message_infos.add()
+        mi.type = U.SYN_TYPE
+        mi.version.extend([1, 0, 5])
+        mi.length = 7
+        hb = h.SerializeToString()
+        absent = U.varint(len(hb)) + hb + U.filler(7)
+        return U.make_segment(21, [U.filler(4)]) + U.make_segment(0, [U.filler(5), U.filler(9)]) + absent + U.make_segment(22, [U.filler(0)])
     if kind == "merge":      # should_merge segment: full messages of two types + diffs whose base is not the first message
         return merge_segment(spec[1])
     raise ValueError(spec)
@@ -96,6 +116,7 @@ def synthetic_specs(quick: bool):
               ("multi", [[130, 131, 132, 133, 16387, 16388, 16389]]), ("multi", [[0] * 40, [2] * 90])]
     specs += [("unknown", 9), ("unknown", CH)]
     specs += [("merge", 0), ("merge", 1), ("merge", 2)]
+    specs += [("random", 70000, 1), ("random", 200000, 2), ("random", CH - 40, 3), ("ident0",), ("bighdr", 20000), ("bighdr", 2100000)]
     return specs
 
 
@@ -215,20 +236,24 @@ def oracle_stale(m, blob: bytes, grow: int) -> tuple[str, str] | None:
     f = m.IWAFile.from_buffer(blob)
     if not f.chunks:
         return None
-    extra = b"\xc2\xa9\x07" + U.varint(grow) + bytes(grow)
-    for s in f.chunks[0].archives:
-        for o in s.objects:
-            (o.data if hasattr(o, "data") else o).MergeFromString(extra)
-    want = [(s.header.identifier, [o.SerializeToString() for o in s.objects]) for s in f.chunks[0].archives]
-    out = f.to_buffer()
-    try:
-        walked = U.walk_stream(U.raw_stream(out))
-    except Exception as e:  # noqa: BLE001
-        return ("stale-length", f"grow={grow}: encoded stream does not walk: {type(e).__name__}: {e}")
     from numbers_parser.generated.TSPArchiveMessages_pb2 import ArchiveInfo
-    got = [(ArchiveInfo.FromString(hb).identifier, ps) for hb, ps in walked]
-    if got != want:
-        return ("stale-length", f"grow={grow}: header lengths not updated to the new message sizes")
+    # the same live object is encoded, changed and encoded again: every encoding must describe the objects as they are
+    # at that moment (a length remembered from an earlier encoding is as stale as one remembered from decoding)
+    for rnd in range(3):
+        g = grow + rnd
+        extra = b"\xc2\xa9\x07" + U.varint(g) + bytes(g)
+        for s in f.chunks[0].archives:
+            for o in s.objects:
+                (o.data if hasattr(o, "data") else o).MergeFromString(extra)
+        want = [(s.header.identifier, [o.SerializeToString() for o in s.objects]) for s in f.chunks[0].archives]
+        out = f.to_buffer()
+        try:
+            walked = U.walk_stream(U.raw_stream(out))
+        except Exception as e:  # noqa: BLE001
+            return ("stale-length", f"grow={grow} encoding #{rnd + 1}: encoded stream does not walk: {type(e).__name__}: {e}")
+        got = [(ArchiveInfo.FromString(hb).identifier, ps) for hb, ps in walked]
+        if got != want:
+            return ("stale-length", f"grow={grow} encoding #{rnd + 1}: header lengths not updated to the new message sizes")
     return None
 
 
